@@ -19,7 +19,7 @@ NOTE = ("Trusted: Lean 4.33 kernel (axioms audited per theorem: propext, Classic
 
 P = {
  "C01": ("FULL proof: for every well-formed text (every &str, every &[u16]), every data source and every base-direction choice, BidiInfo::new / ParagraphBidiInfo::new as modelled cannot panic and the levels of every paragraph are the expansion to code units of UAX #9's levels (Spec.paragraphLevels: X1-X8, X9, X10/BD13, W1-W7, BD16/N0-N2 with the 63 limit, I1-I2, and the level carried by removed characters) of the paragraph's characters with their reported classes, at the P2/P3 paragraph level (C01_bidiInfo, C01_paragraphBidiInfo, C01_chars, C01_unit; built-in data for &str and &[u16]: C01_hardcoded_str, C01_hardcoded_utf16 and the _single forms). Proved by stages (StageX = C11_sim, StageSeq, StageW, StageN incl. retained BN units, StageI, StageFill, pure-LTR shortcut, Expand = unit-length independence) and composed in Lemmas/C01Compose*. Since the repair of finding D9 no hypothesis on the data source's bracket classes remains. Tie to the code: Impl/Model correspondence end-to-end and stage by stage through the cfg hooks; the Spec oracle on the crate's own answers finds the replay (generated texts incl. depth > 125, > 63 pending brackets over several level runs, every bracket pair of the reference in N0-sensitive templates, > 256 sibling isolates, removed-only text, multi-unit characters; exhaustive small scope in the thorough tier).", "Lean theorems (Model = UAX #9 Spec, all inputs) + Impl/Model correspondence (end-to-end and per stage via hooks) + Spec oracle"),
- "C02": ("FULL proof: partition (C02_partition), P2/P3 (C02_level), X5c as reported (C02_classes, uniform), single-paragraph mode (C02_single), no panic, for every well-formed text, data source (FSI on U+2068-width characters) and direction; correspondence on paragraphs/classes; Spec oracle (BD9 by depth counting, P2/P3, X5c).", "Lean theorems + correspondence + Spec oracle"),
+ "C02": ("FULL proof: partition (C02_partition), P2/P3 (C02_level), X5c as reported (C02_classes, uniform), single-paragraph mode (C02_single), no panic, for every well-formed text, every data source and direction (no proviso on the width of FSI-class characters since the repair of finding D10); correspondence on paragraphs/classes; Spec oracle (BD9 by depth counting, P2/P3, X5c).", "Lean theorems + correspondence + Spec oracle"),
  "C03": ("FULL proof: the scan equals the declarative L1 of the Spec on every well-formed line (C03_l1, C03_line), levels outside the line untouched (C03_outside), per-character variant (C03_per_char), the reset_to assert unreachable; relative correspondence (crate's own classes/levels in, line levels out).", "Lean theorems + correspondence + Spec oracle"),
  "C04": ("FULL proof for every level sequence: no panic, length, permutation, identity without odd levels, equality with the Spec's L2 (C04_eq_spec); correspondence on generated level vectors incl. the 126 region.", "Lean theorems + correspondence + Spec oracle"),
  "C05": ("FULL proof: no panic (incl. lines wholly at 126), the runs are the maximal single-level pieces of the line (C05_partition), their order reversed-if-odd is the Spec's L2 order (C05_order); the deprecated copy is the same Model function and is compared with the crate's deprecated function on every case.", "Lean theorems + correspondence + Spec oracle"),
@@ -29,7 +29,7 @@ P = {
  "C09": ("FULL proof: the UTF-16 text source enumerates the lossy decoding (C18); same characters, raw classes, base direction, paragraphs (character ranges and levels), reported classes and levels, character for character, as the UTF-8 analysis of the lossy decoding (C09_same_chars, C09_base_direction, C09_paragraphs, C09_classes, C09_levels, C09_levels_uniform, C09_levels_hardcoded, C09_single_paragraph_api); line queries follow from C03-C06 being functions of classes/levels; oracle: UTF-16 API vs UTF-8 API on the lossy decoding, per character (levels, line levels per unit and per character, runs, reordered line segment-wise, exact encoding for well-formed input), std-only segmentation in the harness.", "Lean theorems + metamorphic oracle"),
  "C10": ("FULL proof: a paragraph analysed inside the whole text equals its substring analysed alone for classes, levels, paragraph level (C10_slice, C10_slice_multi, C10_slice_err) and for line levels, runs and reordered lines up to the index shift (C10_lines: reorderedLevels_shift, visualRuns_shift, reorderLine_shift); single-paragraph type = multi-paragraph type on one-paragraph text incl. line queries (C10_single, C10_single_reorder_line); oracle: whole text vs each paragraph substring and ParagraphBidiInfo vs BidiInfo.", "Lean theorems + metamorphic oracle"),
  "C11": ("FULL proof: reachable-state invariant of the explicit machine (ExInv), explicit levels in [paragraph level,125], resolved <= 126, no panic, the Model's machine is the UAX #9 machine (C11_sim_step/run), balance from ANY reachable state incl. overflow (C11_balance), overflow initiators ignored (C11_overflow_ignored); the 63-bracket clause is bd16_limit / bd16_stack_le (Lemmas/C01NeutralBD16); oracle: Spec levels on deep / bracket-heavy inputs, stage correspondence via hooks.", "Lean theorems + correspondence + Spec oracle"),
- "C12": ("FULL proof: for EVERY data source the analysis is UAX #9 applied to the class and bracket values the source returns (C12_any_source, C12_any_source_single = C01 without any hypothesis on the source's bracket classes, since the repair of finding D9); the analysis consults the source only through cls/brk of the text's characters (C12_depends_only_on_ds); two texts with the same class/bracket values position by position are analysed identically whatever their encodings, unit lengths and scalar values (C12_unit_len_irrelevant, _single, C12_units_uniform); built-in source explicit = convenience (C12_builtin_explicit); oracle: random data sources incl. brackets of class ES/CS/ET/NSM next to BN/NSM (ds-brkcls), keys that real Unicode relates, the same abstract sequence through 1-unit and multi-unit alphabets.", "Lean theorems + metamorphic oracle"),
+ "C12": ("FULL proof: for EVERY data source the analysis is UAX #9 applied to the class and bracket values the source returns (C12_any_source, C12_any_source_single = C01 with no hypothesis at all on the data source, since the repairs of findings D9 and D10); the analysis consults the source only through cls/brk of the text's characters (C12_depends_only_on_ds); two texts with the same class/bracket values position by position are analysed identically whatever their encodings, unit lengths and scalar values (C12_unit_len_irrelevant, _single, C12_units_uniform); built-in source explicit = convenience (C12_builtin_explicit); oracle: random data sources incl. brackets of class ES/CS/ET/NSM next to BN/NSM (ds-brkcls), formatting classes on ordinary characters of every width and ordinary classes on the real formatting characters (ds-fmt), keys that real Unicode relates, the same abstract sequence through 1-unit and multi-unit alphabets.", "Lean theorems + metamorphic oracle"),
  "C13": ("FULL proof on the Spec (UAX #9 itself): matching PDI of a balanced content, paragraph level, X5c outside, explicit state restored at the PDI from any state, and C13_isolation / C13_isolation_raw: the levels of every character outside a valid LRI/RLI...PDI pair do not depend on a balanced B-free content; transfer to the crate by the C01 tie; oracle: metamorphic content replacement on the real crate (incl. initiators at levels 119-123 and pairs wrapped in outer brackets).", "Lean theorems + metamorphic oracle"),
  "C14": ("FULL proof; translator regenerates the table model from tables.rs every run: table sorted/disjoint (kernel decision over all 1505 rows), std's binary search = order-independent lookup for every sorted table (C14_bsearch), equality with the frozen Unicode 16.0 reference for every natural number (C14_ref), format characters, version; correspondence exhaustive over all 1,112,064 scalars.", "translator + Lean theorems (decide +kernel over the whole table) + exhaustive correspondence"),
  "C15": ("FULL proof; translator regenerates the pairs table: distinctness, first-match = any-match, equality with the frozen reference for every code point (C15_ref), key structure incl. canonical equivalents (C15_keys, C15_canonical), every bracket is ON in the class table (C15_all_ON); correspondence exhaustive over all scalars.", "translator + Lean theorems + exhaustive correspondence"),
@@ -73,7 +73,7 @@ m = {
               "kind_free_text": "Lean 4 model + theorems (kernel-checked), Rust in-process harness, Lean native driver evaluating Model and Spec on the crate's answers"}],
  "checks": checks,
  "not_applicable": [],
- "notes": "Nine genuine defects (D1-D9) were found through the machinery and repaired in /repo by one 'fix:' commit each, see known_findings.json and DESIGN.md §6. tools/coverage.sh and tools/automut.py are diagnostics (line coverage of the crate under the correspondence streams; systematic mutation sweep), not registered checks.",
+ "notes": "Ten genuine defects (D1-D10) were found through the machinery and repaired in /repo by one 'fix:' commit each, see known_findings.json and DESIGN.md §6. tools/coverage.sh and tools/automut.py are diagnostics (line coverage of the crate under the correspondence streams; systematic mutation sweep), not registered checks.",
 }
 json.dump(m, open(os.path.join(ROOT, "MANIFEST.json"), "w"), indent=1)
 print("MANIFEST.json written:", len(checks), "checks")
